@@ -8,9 +8,11 @@ Everything a rule pack does is built from what is in this file:
 """
 import collections
 import json
+import os
 import re
 
 RET = ("return",)
+FLOW = os.environ.get("VERIF_FLOW", "1") == "1"
 ENTITY_ID = "<entity.id>"
 
 
@@ -149,9 +151,31 @@ class Body:
         return self.blocks[bb]["term"]
 
     def loc(self, bb=None, line=None):
+        file = self.file
+        if bb is not None:
+            file = self.term(bb).get("file") or file
         if line is None:
             line = self.term(bb)["line"] if bb is not None else self.line
-        return "%s:%d" % (self.file, line)
+        return "%s:%d" % (file, line or 0)
+
+    def site(self, bb):
+        """identity of the source construct a block stands for: copies of one block made by inlining / path splitting share it"""
+        blk = self.blocks[bb]
+        return (blk.get("src") or self.path, tuple(blk.get("stack") or ()), blk.get("orig", bb))
+
+    def ordinals(self, bbs):
+        """bb -> ordinal of its site among the given blocks (copies of the same site get the same ordinal)"""
+        sites = sorted({self.site(bb) for bb in bbs}, key=lambda s: (s[0] != self.path, s[0], s[1], s[2]))
+        return {bb: sites.index(self.site(bb)) for bb in bbs}
+
+    def src(self, bb):
+        """path of the function whose source this block was copied from (the body itself unless inlined)"""
+        return self.blocks[bb].get("src") or self.path
+
+    def real_calls(self):
+        for bid, t in self.calls():
+            if not t.get("ghost"):
+                yield bid, t
 
     def calls(self):
         for bid, blk in self.blocks.items():
@@ -293,6 +317,37 @@ class Body:
                 st.append(s)
         return seen
 
+    def without_edges(self, removed):
+        """view of this body with the given switch edges (bb, target) deleted: same block ids, so sites can be compared across
+        views; used to ask what holds on the paths that leave a match through one particular arm"""
+        removed = frozenset(removed)
+        cache = self.__dict__.setdefault("_views", {})
+        if removed in cache:
+            return cache[removed]
+        d = dict(self.d)
+        blocks = []
+        dead = max(self.blocks) + 1
+        used_dead = False
+        for bid in sorted(self.blocks):
+            blk = self.blocks[bid]
+            t = blk["term"]
+            if t["k"] == "switch" and any(r[0] == bid for r in removed):
+                gone = {r[1] for r in removed if r[0] == bid}
+                nt = dict(t)
+                nt["targets"] = [[v, x] for v, x in t["targets"] if x not in gone]
+                if t["otherwise"] in gone:
+                    nt["otherwise"] = dead
+                    used_dead = True
+                blk = dict(blk, term=nt)
+            blocks.append(blk)
+        if used_dead:
+            blocks.append({"id": dead, "cleanup": False, "stmts": [], "term": {"k": "unreachable", "line": 0, "exp": False}})
+        d["blocks"] = blocks
+        v = Body(d, self.facts)
+        v.view_of = self
+        cache[removed] = v
+        return v
+
     def live_blocks(self, unwind=False):
         return self.reachable(0, unwind=unwind)
 
@@ -406,21 +461,21 @@ class Body:
         self.defs()
         return self._stores
 
-    def origin(self, place, _depth=0, _seen=None):
+    def origin(self, place, _depth=0, _seen=None, at=None):
         """Value origin of a place (see module doc of DESIGN 2.2 P3).  Result is a hashable tuple:
            ('param', n, proj) ('call', bb, proj) ('const', text) ('agg', bb, idx, proj)
            ('op', name, (orgs..)) ('discr', org) ('phi', local, (orgs..)) ('unknown', why)"""
         if place is None:
             return ("unknown", "noplace")
-        key = (place["local"], json.dumps(place["proj"], sort_keys=True))
+        key = (place["local"], json.dumps(place["proj"], sort_keys=True), at)
         if key in self._org_cache:
             return self._org_cache[key]
-        r = self._origin(place["local"], list(place["proj"]), _depth, _seen or frozenset())
+        r = self._origin(place["local"], list(place["proj"]), _depth, _seen or frozenset(), at)
         if _depth == 0:
             self._org_cache[key] = r
         return r
 
-    def operand_origin(self, o, _depth=0, _seen=None):
+    def operand_origin(self, o, _depth=0, _seen=None, at=None):
         p = op_place(o)
         if p is None:
             if isinstance(o, dict) and "const" in o:
@@ -428,9 +483,69 @@ class Body:
                     return ("const", "fn " + o["fn"])
                 return ("const", o["const"])
             return ("unknown", "operand")
-        return self.origin(p, _depth, _seen)
+        return self.origin(p, _depth, _seen, at)
 
-    def _origin(self, local, proj, depth, seen):
+    def end(self, bb):
+        """program point of the terminator of bb (for flow-sensitive origins)"""
+        return (bb, len(self.blocks[bb]["stmts"]))
+
+    def all_preds(self):
+        if getattr(self, "_preds", None) is None:
+            P = collections.defaultdict(set)
+            for n in self.live_blocks(True):
+                for x in self.succs(n, True):
+                    P[x].add(n)
+            self._preds = P
+        return self._preds
+
+    def reaching_defs(self, local, at):
+        """definitions of `local` that can be the latest one when control is at program point `at` = (bb, stmt idx):
+        (set of (bb, idx) with idx -1 for a call destination, whether the value at function entry can still be there)"""
+        key = (local, at)
+        rc = getattr(self, "_rd_cache", None)
+        if rc is None:
+            rc = self._rd_cache = {}
+        if key in rc:
+            return rc[key]
+        D = self.defs().get(local, [])
+        by_block = collections.defaultdict(list)
+        for d in D:
+            by_block[d[1]].append(d)
+        out = set()
+        entry = False
+        seen = set()
+        work = [(at[0], at[1], None)]
+        while work:
+            bb, upto, succ = work.pop()
+            killed = False
+            ds = by_block.get(bb, [])
+            # the call destination is written on the normal edge only
+            if upto is None:
+                for d in ds:
+                    if d[0] == "call" and self.term(bb).get("target") == succ:
+                        out.add((bb, -1))
+                        if not d[3]:
+                            killed = True
+                upto = len(self.blocks[bb]["stmts"])
+            if killed:
+                continue
+            for d in sorted((d for d in ds if d[0] == "stmt" and d[2] < upto), key=lambda d: -d[2]):
+                out.add((bb, d[2]))
+                if not d[3]:
+                    killed = True
+                    break
+            if killed:
+                continue
+            if bb == 0:
+                entry = True
+            for p in self.all_preds().get(bb, ()):
+                if (p, bb) not in seen:
+                    seen.add((p, bb))
+                    work.append((p, None, bb))
+        rc[key] = (out, entry)
+        return rc[key]
+
+    def _origin(self, local, proj, depth, seen, at=None):
         if depth > 40:
             return ("unknown", "depth")
         pn = projnames(proj)
@@ -442,6 +557,12 @@ class Body:
             return ("unknown", "ret")
         # candidate defs: whole-local defs, or defs whose dst projection is a prefix of ours
         cands = []
+        entry_reaches = False
+        if at is not None:
+            rd, entry_reaches = self.reaching_defs(local, at)
+            D = [d for d in D if (d[1], d[2]) in rd]
+            if not D and 1 <= local <= self.argc:
+                return ("param", local, pn)
         for d in D:
             dp = d[3]
             if len(dp) <= len(pn) and tuple(pn[:len(dp)]) == tuple(dp):
@@ -451,6 +572,8 @@ class Body:
             return ("unknown", "partial _%d" % local)
         # when both a whole def and more specific partial defs exist, keep all (phi)
         res = []
+        if entry_reaches and 1 <= local <= self.argc:
+            res.append(("param", local, pn))
         for d in cands:
             kind, bb, idx, dp, payload, rawdp = d
             rest_raw = self._strip_prefix(proj, len(dp))
@@ -458,7 +581,12 @@ class Body:
             if k in seen:
                 continue
             seen2 = seen | {k}
+            at2 = None if at is None else ((bb, idx) if idx >= 0 else self.end(bb))
             if kind == "call":
+                tb = self._try_branch(bb, rest_raw)
+                if tb is not None:
+                    res.append(self._origin(tb["local"], tb["proj"], depth + 1, seen2, at2))
+                    continue
                 res.append(("call", bb, projnames(rest_raw)))
                 continue
             rv = payload
@@ -467,21 +595,23 @@ class Body:
                 o = rv["ops"][0]
                 p = op_place(o)
                 if p is None:
-                    res.append(self.operand_origin(o))
+                    res.append(self.operand_origin(o, at=at2))
                 else:
-                    res.append(self._origin(p["local"], list(p["proj"]) + rest_raw, depth + 1, seen2))
+                    res.append(self._origin(p["local"], list(p["proj"]) + rest_raw, depth + 1, seen2, at2))
             elif rk in ("ref", "rawptr"):
                 p = rv["place"]
-                res.append(self._origin(p["local"], list(p["proj"]) + rest_raw, depth + 1, seen2))
+                res.append(self._origin(p["local"], list(p["proj"]) + rest_raw, depth + 1, seen2, at2))
             elif rk == "cast":
                 o = rv["ops"][0]
                 p = op_place(o)
                 if p is None:
-                    res.append(self.operand_origin(o))
+                    res.append(self.operand_origin(o, at=at2))
                 elif rv.get("cast", "").startswith(("IntToInt", "PtrToPtr", "PointerCoercion", "Transmute")) or True:
-                    res.append(self._origin(p["local"], list(p["proj"]) + rest_raw, depth + 1, seen2))
+                    res.append(self._origin(p["local"], list(p["proj"]) + rest_raw, depth + 1, seen2, at2))
             elif rk == "aggregate":
                 rn = projnames(rest_raw)
+                if rn and rn[0].startswith("as ") and rv.get("variant") and rn[0] != "as " + rv["variant"]:
+                    continue    # the payload of variant A read from a value built as variant B: not a feasible definition
                 if rn:
                     # select the operand: for ADT aggregates by field name, tuples/closures by position
                     sel = self._agg_select(rv, rest_raw)
@@ -489,16 +619,16 @@ class Body:
                         o, remaining = sel
                         p = op_place(o)
                         if p is None:
-                            res.append(self.operand_origin(o))
+                            res.append(self.operand_origin(o, at=at2))
                         else:
-                            res.append(self._origin(p["local"], list(p["proj"]) + remaining, depth + 1, seen2))
+                            res.append(self._origin(p["local"], list(p["proj"]) + remaining, depth + 1, seen2, at2))
                         continue
                 res.append(("agg", bb, idx, rn))
             elif rk in ("binop", "unop"):
-                res.append(("op", rv["op"], tuple(self.operand_origin(o, depth + 1, seen2) for o in rv["ops"])))
+                res.append(("op", rv["op"], tuple(self.operand_origin(o, depth + 1, seen2, at2) for o in rv["ops"])))
             elif rk == "discriminant":
                 p = rv["place"]
-                res.append(("discr", self._origin(p["local"], list(p["proj"]), depth + 1, seen2)))
+                res.append(("discr", self._origin(p["local"], list(p["proj"]), depth + 1, seen2, at2)))
             elif rk == "setdiscr":
                 res.append(("agg", bb, idx, projnames(rest_raw)))
             else:
@@ -510,6 +640,39 @@ class Body:
         if not uniq:
             return ("unknown", "cycle _%d" % local)
         return ("phi", local, tuple(uniq))
+
+    def _try_branch(self, bb, rest_raw):
+        """`x?`: the Continue payload of Try::branch(x) is the Some / Ok payload of x, the Break payload of a Result its Err payload"""
+        t = self.term(bb)
+        c = t["callee"]
+        if c.get("path") != "std::ops::Try::branch" or not t["args"]:
+            return None
+        p = op_place(t["args"][0])
+        ty = str(t["args"][0].get("ty", ""))
+        pn = projnames(rest_raw)
+        if p is None or len(pn) < 2:
+            return None
+        isopt = base_ty(ty).endswith("option::Option")
+        isres = base_ty(ty).endswith("result::Result")
+        if not (isopt or isres):
+            return None
+        rest = [e for e in rest_raw if e != "deref"]
+        if pn[0] == "as Continue" and pn[1] == "0":
+            down = "Some" if isopt else "Ok"
+            return {"local": p["local"], "proj": list(p["proj"]) + [{"downcast": down}, {"field": "0", "idx": 0, "of": ""}] + rest[2:]}
+        if isres and len(pn) >= 4 and pn[:4] == ("as Break", "0", "as Err", "0"):
+            return {"local": p["local"], "proj": list(p["proj"]) + [{"downcast": "Err"}, {"field": "0", "idx": 0, "of": ""}] + rest[4:]}
+        return None
+
+    def try_source(self, org):
+        """if org is the result of Try::branch(x): (origin of x, is_option) else None"""
+        if org[0] == "call" and not org[2]:
+            t = self.term(org[1])
+            if t["callee"].get("path") == "std::ops::Try::branch" and t["args"]:
+                ty = base_ty(str(t["args"][0].get("ty", "")))
+                if ty.endswith(("option::Option", "result::Result")):
+                    return self.operand_origin(t["args"][0]), ty.endswith("option::Option")
+        return None
 
     @staticmethod
     def _strip_prefix(proj, n_named):
@@ -605,7 +768,102 @@ class Body:
         t = self.term(bb)
         if i >= len(t["args"]):
             return ("unknown", "noarg")
-        return self.operand_origin(t["args"][i])
+        return self.operand_origin(t["args"][i], at=self.end(bb) if FLOW else None)
+
+    def copy_root(self, o, at):
+        """follow plain copies/moves (and reads of a component of a value built by one aggregate statement) backwards from
+        operand `o` read at program point `at`: returns (local, program point) of the first local that is not just a
+        copy of another one, or None when the value is not a whole local"""
+        p = op_place(o)
+        if p is None:
+            return None
+        local, proj = p["local"], [e for e in p["proj"] if e != "deref"]
+        for _ in range(30):
+            rd, entry = self.reaching_defs(local, at)
+            if entry or len(rd) != 1:
+                break
+            bb, idx = next(iter(rd))
+            if idx < 0:
+                break
+            st = self.blocks[bb]["stmts"][idx]
+            rv = st["rv"]
+            if st["dst"]["proj"]:
+                break
+            if rv["k"] == "use":
+                q = op_place(rv["ops"][0])
+                if q is None:
+                    break
+                local, proj, at = q["local"], [e for e in q["proj"] if e != "deref"] + proj, (bb, idx)
+                continue
+            if rv["k"] == "aggregate" and proj:
+                rest = list(proj)
+                if isinstance(rest[0], dict) and "downcast" in rest[0]:
+                    if rv.get("variant") != rest[0]["downcast"]:
+                        break
+                    rest = rest[1:]
+                if rest and isinstance(rest[0], dict) and "field" in rest[0] and rest[0].get("idx") is not None and rest[0]["idx"] < len(rv["ops"]):
+                    q = op_place(rv["ops"][rest[0]["idx"]])
+                    if q is None:
+                        break
+                    local, proj, at = q["local"], [e for e in q["proj"] if e != "deref"] + rest[1:], (bb, idx)
+                    continue
+            break
+        return (local, at) if not proj else None
+
+    def counts_iterations(self, local, nbb, some_target, use_bbs):
+        """Is `local` a counter in step with the loop whose head is the `next()` call in block nbb: initialised to the
+        constant 0 outside the loop, incremented by exactly 1 once on every path from the Some-edge back to next(), and
+        not incremented on a path that leaves the loop towards a block of use_bbs?  Then at use_bbs it equals the
+        number of completed iterations, i.e. the position of the element the loop was left at.  Returns (ok, why)"""
+        loop = {x for x in self.reachable(some_target, stop=[nbb]) if nbb in self.reachable(x)}
+        incs = []
+        for d in self.defs().get(local, []):
+            kind, bb, idx, dp, payload, _ = d
+            if dp or kind != "stmt":
+                return False, "written by a call or field-wise"
+            rv = payload
+            if rv["k"] == "use" and isinstance(rv["ops"][0], dict) and "const" in rv["ops"][0]:
+                if not rv["ops"][0]["const"].replace("const ", "").startswith("0_"):
+                    return False, "initialised to %s, not 0" % rv["ops"][0]["const"]
+                if bb in loop:
+                    return False, "reset inside the loop"
+                continue
+            src = None
+            if rv["k"] == "binop":
+                src = rv
+            elif rv["k"] == "use":
+                q = op_place(rv["ops"][0])
+                if q is not None and projnames(q["proj"]) == ("0",):
+                    ds = [x for x in self.defs().get(q["local"], []) if x[0] == "stmt" and x[4]["k"] == "binop"]
+                    if len(ds) == 1:
+                        src = ds[0][4]
+            if src is None or src.get("op") not in ("Add", "AddWithOverflow", "AddUnchecked"):
+                return False, "assigned something that is not `itself + 1`"
+            a, c = src["ops"][0], src["ops"][1]
+            pa = op_place(a)
+            if pa is None or pa["proj"] or self.copy_root(a, (bb, idx))[0] != local or not (isinstance(c, dict) and c.get("const", "").replace("const ", "").startswith("1_")):
+                return False, "assigned something that is not `itself + 1`"
+            incs.append(bb)
+        if not incs:
+            return False, "never incremented"
+        ok, wit = self.must_pass(some_target, incs, goals=[nbb])
+        if not ok:
+            return False, "an iteration can complete without the increment: %s" % self.fmt_path(wit)
+        for i in incs:
+            after = set()
+            for sx in self.succs(i):
+                after |= self.reachable(sx, stop=[nbb])
+            if i in after:
+                return False, "incremented more than once per iteration"
+            hit = [u for u in use_bbs if u in after]
+            if hit:
+                return False, "the loop can be left after the increment of the current iteration (towards bb%d): the count is then one too high" % hit[0]
+        return True, ""
+
+    def ret_origins(self, *fields):
+        """origins of the returned value (or of component `fields` of it, by tuple/struct position) at each normal return"""
+        proj = [{"field": str(f), "idx": f, "of": ""} for f in fields]
+        return [self.origin({"local": 0, "proj": proj}, at=self.end(r)) for r in self.returns() if r in self.live_blocks()]
 
     def call_of(self, org):
         """if origin is the (unprojected or projected) result of a call: (bb, callee, proj)"""
@@ -619,7 +877,7 @@ class Body:
         for bid, blk in self.blocks.items():
             t = blk["term"]
             if t["k"] == "switch":
-                out.append((bid, self.operand_origin(t["discr"]), {v: b for v, b in t["targets"]}, t["otherwise"]))
+                out.append((bid, self.operand_origin(t["discr"], at=self.end(bid) if FLOW else None), {v: b for v, b in t["targets"]}, t["otherwise"]))
         return out
 
     def bool_guard_edges(self, is_guard_call):
@@ -655,9 +913,14 @@ class Body:
             if org[0] != "discr":
                 continue
             so = org[1]
+            names = self._variant_names_for_switch(bid)
+            ts = self.try_source(so)
+            if ts is not None and not match_org(so):
+                # `x?`: Continue <=> Some/Ok, Break <=> None/Err of x
+                so = ts[0]
+                names = {0: "Some", 1: "None"} if ts[1] else {0: "Ok", 1: "Err"}
             if not match_org(so):
                 continue
-            names = self._variant_names_for_switch(bid)
             edges = {}
             for v, b in tv.items():
                 edges[names.get(v, str(v))] = (bid, b)
@@ -704,6 +967,7 @@ class Facts:
         self.d = d
         self.config = d.get("config")
         self.bodies = [Body(b, self) for b in d["bodies"]]
+        self.all_bodies = self.bodies     # the expanded view (sa/inline.py) drops absorbed helpers from `bodies` but keeps them here
         self.by_path = collections.defaultdict(list)
         for b in self.bodies:
             self.by_path[b.path].append(b)
@@ -764,7 +1028,7 @@ class Facts:
 
     def methods_named(self, self_base, name):
         """inherent or trait-impl methods `name` whose impl self type has base path self_base"""
-        return [b for b in self.bodies if b.name == name and b.self_ty and base_ty(b.self_ty) == self_base]
+        return [b for b in self.all_bodies if b.name == name and b.self_ty and base_ty(b.self_ty) == self_base]
 
     # --------------------------------------------------------- call graph
     def targets(self, callee):
